@@ -2,6 +2,8 @@ import PV.Model.Parser
 import PV.Generated.Prec
 import PV.Proofs.SyntaxSuffix
 import PV.Proofs.SyntaxGrouping
+import PV.Proofs.SyntaxLexOrder
+import PV.Generated.Lex
 /-
   C07 — the parser groups operators as Python does, and consumes the whole input or raises.
 
@@ -14,7 +16,19 @@ import PV.Proofs.SyntaxGrouping
   and, for the table regenerated from /repo, against Python's own grouping written down from the
   language reference (`pyGroup`, `pyPrefixWide`):
   * `grouping_deviations_current`, `prefix_deviations_current`: the operator pairs on which the
-    parser deviates from Python are EXACTLY the listed ones.
+    parser deviates from Python are EXACTLY the listed ones;
+  and about the LEXER model (`PV/Model/Lexer.lean`, tied to `pytools.lex.lex` on
+  `Parser.lex_table` by the `lex` streams):
+  * `lexer_partitions_input` (any table): the lexed items are non-empty and concatenate to the
+    input; `parse_string_consumes_all`: a tree is returned only if lexer and parser consumed the
+    whole string;
+  * `operator_token_current`: every operator / keyword / punctuation token of the table is lexed
+    as ONE item with its own tag whenever the next character cannot extend it (`**` before `*`,
+    `//` before `/`, `<<` `<=` before `<`, `==` before `=`, keywords before identifiers);
+  * `imaginary_rule_dead_current`: no lexed item ever carries the tag `imaginary`;
+  * `lexer_order_current` (`decide` on the regenerated table): no literal rule hides a later
+    one except the duplicated `==` entry, the float rule precedes the integer rule, the keyword
+    and `True`/`False` rules precede the identifier rule.
 -/
 namespace PV.C07
 open PV PV.Syntax
@@ -238,5 +252,92 @@ theorem neg_pow_grouping_cex :
 theorem not_cmp_grouping_cex :
     parseTop Generated.parserPrec 0 [.sym "not", .ident "a", .sym "==", .ident "b"]
       = .ok (.cmp .eq (.un .lnot (.var "a")) (.var "b")) := by decide +kernel
+
+
+/-! ### (d) the lexer -/
+
+section lexer
+open PV.Lexer
+
+/-- **`lex` partitions the input** (for every rule table): the texts of the lexed items, in
+order and with the whitespace items, concatenate to the input, and no item is empty. -/
+theorem lexer_partitions_input (tbl : LexTable) (cs : List Char) (ls : List Lexed)
+    (h : lexRawWith tbl cs = .ok ls) : (ls.map (·.2)).flatten = cs ∧ ∀ l ∈ ls, l.2 ≠ [] :=
+  lexRawWith_partition h
+
+/-- **A string is parsed completely or not at all**: `parseString` (`Parser.__call__`) returns a
+tree only if the lexer split the WHOLE string into items and the parser consumed ALL their
+tokens. -/
+theorem parse_string_consumes_all (tbl : LexTable) (P : ParserPrec) (m : Nat) (s : String)
+    (e : Expr) (h : parseStringWith tbl P m s = .ok e) :
+    ∃ ls ts, lexRawWith tbl s.toList = .ok ls ∧ (ls.map (·.2)).flatten = s.toList ∧
+      toksOf ls = .ok ts ∧ parseExpr P (2 * ts.length + 8) m ts = .ok (e, []) := by
+  unfold parseStringWith at h
+  split at h
+  · cases h
+  · rename_i ts hl
+    split at h
+    · rename_i e' hp
+      simp only [Except.ok.injEq] at h; subst h
+      unfold lexWith at hl
+      cases hr : lexRawWith tbl s.toList with
+      | error err => rw [hr] at hl; simp [bind, Except.bind] at hl
+      | ok ls =>
+        rw [hr] at hl
+        simp only [bind, Except.bind] at hl
+        exact ⟨ls, ts, rfl, (lexRawWith_partition hr).1, hl, (consumes_all_or_error P m ts).1 _ hp⟩
+    · cases h
+
+/-- **Operator tokens.**  Every operator, keyword and punctuation token of the current table
+(`symTable`: text, tag, characters that must not follow) is matched as ONE item carrying its own
+tag, at the head of any input, provided the next character cannot extend it: `**` is not two
+`*`, `//` not two `/`, `<<` `<=` `>>` `>=` `==` `!=` are not split, a keyword is not the start of
+a longer name. -/
+theorem operator_token_current {s : List Char} {tag : String} {bad : Char → Bool}
+    (hm : (s, tag, bad) ∈ symTable) (rest : List Char) (hn : nextNot bad rest.head? = true) :
+    firstMatch Generated.lexTable Generated.lexTable (s ++ rest) = some (tag, s.length) := by
+  have ht : Generated.lexTable = Lexer.table := by decide
+  rw [ht, firstMatch_table]
+  exact sym_step hm rest hn
+
+/-- **Rule order of the current table** (`decide` on the regenerated table): the only literal
+rule that hides a later literal rule is the first `==` entry (it hides its own duplicate); the
+float rule comes before the integer rule; the five keyword rules and `True` / `False` come before
+the identifier rule. -/
+theorem lexer_order_current :
+    shadowedIn Generated.lexTable = [("equal", "equal")] ∧
+    ruleIndex Generated.lexTable "float" < ruleIndex Generated.lexTable "int" ∧
+    (["and", "or", "not", "if", "else", "True", "False"].all fun t =>
+      decide (ruleIndex Generated.lexTable t < ruleIndex Generated.lexTable "identifier")) = true := by
+  decide
+
+/-- **The `imaginary` rule of the current table never fires**: every form of the `float` rule ends
+in a greedy run of letters, so the `j` that the `imaginary` rule wants after a float is always
+inside the float item (`1.5j`, `1j`, `1e5j` are float items with a letter tag, and
+`parse_float` raises ValueError on them): complex literals are outside the text syntax, and no
+lexed item ever carries the tag `imaginary`. -/
+theorem imaginary_rule_dead_current (cs : List Char) (ls : List Lexed)
+    (h : lexRawWith Generated.lexTable cs = .ok ls) : ∀ l ∈ ls, l.1 ≠ "imaginary" := by
+  have ht : Generated.lexTable = Lexer.table := by decide
+  rw [ht] at h
+  exact lexRaw_no_imaginary h
+
+example : lexRawWith Generated.lexTable "1.5j".toList = .ok [("float", "1.5j".toList)] := by
+  decide +kernel
+
+example : lexWith Generated.lexTable "a**b//c<<d<=e==f" =
+    .ok [.ident "a", .sym "**", .ident "b", .sym "//", .ident "c", .sym "<<", .ident "d",
+      .sym "<=", .ident "e", .sym "==", .ident "f"] := by decide +kernel
+example : lexWith Generated.lexTable "android or x" =
+    .ok [.ident "android", .sym "or", .ident "x"] := by decide +kernel
+/-- numeric literals shared with Python: value and `repr` are computed by the model -/
+example : lexWith Generated.lexTable "0.1+1e22" =
+    .ok [.flt "0.1" 3602879701896397 36028797018963968, .sym "+",
+      .flt "1e+22" 10000000000000000000000 1] := by decide +kernel
+/-- `parse("1e400")`: the literal overflows (no claim), `1.5x`: letter tag (ValueError) -/
+example : lexWith Generated.lexTable "1e400" = .error .nonFinite := by decide +kernel
+example : lexWith Generated.lexTable "1.5x" = .error .floatText := by decide +kernel
+
+end lexer
 
 end PV.C07
